@@ -170,6 +170,11 @@ def r3(run, db):
         if nm == "leave_all":
             # one Leave per key, only when the actor was actually removed (Some edge)
             se = nested_variant_edge(f, rem[0], ["Some"])
+            if se is None:
+                # `members.remove(&actor)?`: the continue edge of the `?` is the Some edge
+                tb = [b for b in try_branches_on(f, rem[0]) if b.get("cont_edge")]
+                if len(tb) == 1:
+                    se = tb[0]["cont_edge"]
             push = [c for c in f.calls() if c.matches(r"Vec::<T, A>::push$")]
             run.check(se is not None and len(push) == 1 and f.edge_dominates(se, push[0].site), nm + "|leave-only-if-member", "a Leave is recorded only on the Some edge of the member removal (one per group the actor was still in)", "Leave recorded although the actor was not a member", f.where())
     run.anchor("member-removing bodies", n, 2)
